@@ -1,0 +1,33 @@
+//go:build verif
+// +build verif
+
+package parser
+
+// Verification hooks for property C17 (add-only, compiled with -tags verif).
+
+// VerifScanTok is one token of the scanner that SplitStatementToPieces drives
+// (Scanner.scan, default SQL mode): its class and the offset it reports.
+type VerifScanTok struct {
+	Class  string // "semi", "eof" or "other"
+	Offset int
+}
+
+// VerifScanTrace runs Scanner.scan over sql until it reports end of input (or
+// for at most limit tokens) and returns the (class, offset) of every token,
+// whether the scanner recorded an error and whether the limit was hit.
+func VerifScanTrace(sql string, limit int) (toks []VerifScanTok, hasErr bool, truncated bool) {
+	s := NewScanner(sql)
+	for i := 0; i < limit; i++ {
+		tok, pos, _ := s.scan()
+		switch tok {
+		case ';':
+			toks = append(toks, VerifScanTok{"semi", pos.Offset})
+		case 0, eofChar:
+			toks = append(toks, VerifScanTok{"eof", pos.Offset})
+			return toks, len(s.errs) > 0, false
+		default:
+			toks = append(toks, VerifScanTok{"other", pos.Offset})
+		}
+	}
+	return toks, len(s.errs) > 0, true
+}
